@@ -2238,6 +2238,12 @@ static int matchEmail(char *email, int32 emailLen,
     {
         return 0;
     }
+    /* An rfc822Name without "@" is not an address and never matches
+       (it must not authenticate a host name) */
+    if (Memchr(email, '@', emailLen) == NULL)
+    {
+        return 0;
+    }
 
     if (caseSensitiveLocalPart)
     {
